@@ -230,7 +230,8 @@ func AddStandardFilters(fd FilterDictionary) { //nolint: gocyclo
 		return strings.TrimRightFunc(s, unicode.IsSpace)
 	})
 	fd.AddFilter("truncate", func(s string, length func(int) int, ellipsis func(string) string) string {
-		n := length(50)
+		// a negative length keeps nothing (and n - len(els) below must not wrap around)
+		n := max(length(50), 0)
 		el := ellipsis("...")
 		// count characters, not bytes
 		ss, els := []rune(s), []rune(el)
